@@ -111,7 +111,15 @@ func Deb822Doc(r *core.Rand) model.Doc {
 		nf := r.Range(1, 6)
 		perm := r.Perm(len(fieldNames))
 		for k := 0; k < nf; k++ {
-			p.Fields = append(p.Fields, Deb822Field(r, fieldNames[perm[k]]))
+			name := fieldNames[perm[k]]
+			if r.Chance(1, 12) { // another spelling of a well-known name (never two spellings in one paragraph)
+				if r.Bool() {
+					name = strings.ToLower(name)
+				} else {
+					name = strings.ToUpper(name)
+				}
+			}
+			p.Fields = append(p.Fields, Deb822Field(r, name))
 		}
 		p.Sep = r.Pick3(1, 1, 2, 3)
 		p.Comments = comments(r, 10)
